@@ -164,6 +164,15 @@ Proof.
   - intros Hs Hlt. exact (tg_not_constant umin umax X loc scale Hs Hlt).
 Qed.
 
+(* the bounds are locals of _fit computed from (constructor argument, X) only (the generator rejects any use of
+   self.min / self.max after that): a second fit on other data gets ITS OWN default bounds (F6 fixed) *)
+Theorem C04_truncated_bounds_per_fit X1 X2 opt1 opt2 :
+  let d1 := gen_tg_fit None None X1 opt1 in
+  let d2 := gen_tg_fit None None X2 opt2 in
+  gen_tg_min None X2 = np_min X2 - EPSILON /\ gen_tg_max None X2 = np_max X2 + EPSILON /\
+  d2 = gen_tg_store (np_min X2 - EPSILON) (np_max X2 + EPSILON) opt2.
+Proof. repeat split. Qed.
+
 (* with the default bounds every datum is strictly inside the support; user bounds are honoured exactly *)
 Theorem C04_support_truncated X loc scale :
   scale <> 0 ->
